@@ -211,10 +211,12 @@ func updateDatabags(st *state.State, databag registry.JSONDataBag, reg *registry
 	err := st.Get("registry-databags", &databags)
 	if err != nil && !errors.Is(err, state.ErrNoState) {
 		return err
-	} else if errors.Is(err, &state.NoStateError{}) || databags[account] == nil || databags[account][registryName] == nil {
-		databags = map[string]map[string]registry.JSONDataBag{
-			account: {registryName: registry.NewJSONDataBag()},
-		}
+	} else if errors.Is(err, &state.NoStateError{}) || databags == nil {
+		databags = map[string]map[string]registry.JSONDataBag{}
+	}
+	if databags[account] == nil {
+		// keep the databags of other accounts and registries
+		databags[account] = map[string]registry.JSONDataBag{}
 	}
 
 	databags[account][registryName] = databag
